@@ -43,7 +43,9 @@ var c10Starts = []string{"/", "/a", "/a/b/", "rel/dir", "/x/../y//z/."}
 
 func c10Paths(r *vfRand) []string {
 	base := []string{"", ".", "..", "/", "//", "a", "a/", "a/b", "/a/b", "/a//b/", "a/./b/../c", "../..", "../../etc/passwd", "/../..", "/../../etc", "a/../../..", "./../x", "/a/b/../../../c",
-		"....", ".../x", "a/..b", "\xff\xfe/bin", "nul\x00in/side", "sp ace/new\nline", strings.Repeat("d/", 300) + "f", strings.Repeat("../", 50) + "up", "/trailing/dots/..", "/trailing/dot/."}
+		"....", ".../x", "a/..b", "\xff\xfe/bin", "nul\x00in/side", "sp ace/new\nline", strings.Repeat("d/", 300) + "f", strings.Repeat("../", 50) + "up", "/trailing/dots/..", "/trailing/dot/.",
+		// names that mean something to a shell and nothing to SFTP
+		"~", "~/sub", "~x", "a/~", "/~", "~/../up", "$HOME", "*", "-", "%2e%2e/x", "c:\\dir", "a\\b"}
 	for i := 0; i < 6; i++ {
 		var parts []string
 		for j := 1 + r.Intn(6); j > 0; j-- {
@@ -312,6 +314,10 @@ func c10Errors() []c10Err {
 		// errors that merely resemble the standard ones: an interrupted read is a failure, not the end of the file
 		io.ErrUnexpectedEOF, fmt.Errorf("backend dropped: %w", io.ErrUnexpectedEOF), &os.PathError{Op: "read", Path: "/q", Err: io.ErrUnexpectedEOF}, io.ErrClosedPipe, io.ErrShortWrite, os.ErrClosed, os.ErrExist, os.ErrInvalid, syscall.EIO, fmt.Errorf("offline: %w", syscall.EIO)} {
 		out = append(out, c10Err{fmt.Sprintf("other-%d", i), e, rfFailure, e.Error()})
+	}
+	// status codes beyond one byte are codes of their own
+	for _, code := range []uint32{256, 257, 258, 0x10004, 0xFFFFFF00, 0x80000001} {
+		out = append(out, c10Err{fmt.Sprintf("fxerr(%d)", code), fxerr(code), code, ""})
 	}
 	// every errno of the platform: only "no such file" and the two permission errnos have a status of their own,
 	// any other one is a failure that carries its text (the bare values; the wrappers are exercised above)
